@@ -513,6 +513,11 @@ func sharedContainers(cond int) (at.List, at.Object) {
 	// strings and keys that need escaping and non-ASCII ones (serialisers with shared scratch space)
 	base := at.NewList(7, "b\t\"q\" \\ ž😀", 2, inner, nested, 2.5, nil, true, "\u0001ctl", "plain")
 	o := at.NewObject("a", 1, "n", nested, "l", at.NewList(5, 6), "s", "tab\there ž", "z", nil, "k\n😀", "v\"q\"", "é", 2)
+	// enough fields and elements for implementations that treat big containers differently (caches built on first use)
+	for i := 0; i < 40; i++ {
+		o.Set(fmt.Sprintf("f%02d\t", i), 1000+i)
+		base.Add(fmt.Sprintf("e%02d", i))
+	}
 	switch cond {
 	case 1: // spare capacity after Add/Pop
 		base.Add(1, 2, 3)
